@@ -33,7 +33,7 @@ func (c16) Rule() string {
 		"Oracle (closed-form layout model): NewOrigin(p).String() == model block; len == toOriginLength(n) == 10*ceil(n/60)+ceil(n/10)+n; fromOriginLength(len) == n; Len() == n before and after Bytes(); Bytes() == p; " +
 		"an undecoded Origin over the model block has Len() == n and Bytes() == p; the fast validator accepts the LF block, the slow parser accepts the LF block and its CRLF twin and the Origin it yields decodes to p; " +
 		"a hand-written minimal GenBank record with that ORIGIN read through seqio.NewAutoScanner gives Len == n and Bytes == p for LF and CRLF; malformed twins: both paths must reject and nothing may panic (the scanner is only watched for panics on them); a twin whose declared length ends at a line end with whole surplus lines after it (an intact block for the block readers) is read as a record with LF and with CRLF line ends: both must be rejected, or both read with the same residues. " +
-		"index widths: NewOrigin of 10^(w-1)+81 residues for w = 5..9 must equal the model block byte for byte, report Len() == n and decode to the residues. streams: 2..4 hand-written records (LF: fast path, CRLF: slow path) scanned to the end first, then every record decoded: Len() and Bytes() of each must be its own. non-trivial: at least one residue (n >= 1) or a length-function range; distinct: canonical case text (kind, n, alphabet, sub-seed, malformation parameters)."
+		"index widths: NewOrigin of 10^(w-1)+81 residues for w = 5..9 must equal the model block byte for byte, report Len() == n and decode to the residues. streams: 2..4 hand-written records (LF: fast path, CRLF: slow path) scanned to the end first, then every record decoded: Len() and Bytes() of each must be its own. non-trivial: at least one residue (n >= 1) or a length-function range; distinct: canonical case text (kind, n, alphabet, sub-seed, malformation parameters). After decoding, the scanned record is derived through WithFeatures / WithTopology / WithInfo: Len, residues and printed block unchanged; a sixth malformed twin has an empty line before line k."
 }
 
 func (c16) Assumptions() []string {
@@ -45,7 +45,7 @@ func (c16) Assumptions() []string {
 	}
 }
 
-var c16NegKinds = []string{"too-many", "too-few", "wrong-index", "missing-sep", "non-printable"}
+var c16NegKinds = []string{"too-many", "too-few", "wrong-index", "missing-sep", "non-printable", "empty-line"}
 var c16IdxVariants = []string{"plus1", "zero-based", "plus60", "left-aligned", "zero-padded", "8-columns", "10-columns"}
 var c16BadBytes = []byte{0, 9, 31, 32, 127, 128, 255}
 
@@ -69,7 +69,7 @@ func (c16) RequiredBuckets(tier string) []string {
 	for w := 1; w <= maxW; w++ {
 		out = append(out, fmt.Sprintf("idxw|%d", w))
 	}
-	out = append(out, "n|0", "eol|LF", "eol|CRLF", "path|fast", "path|slow", "scan|LF", "scan|CRLF", "api|fresh-origin", "api|undecoded-origin", "lenfn")
+	out = append(out, "n|0", "eol|LF", "eol|CRLF", "path|fast", "path|slow", "scan|LF", "scan|CRLF", "api|fresh-origin", "api|undecoded-origin", "lenfn", "scan|derived-after-decoding")
 	for _, k := range c16NegKinds {
 		out = append(out, "neg|"+k+"|LF", "neg|"+k+"|CRLF")
 	}
@@ -411,6 +411,7 @@ func (m c16) positive(c *fw.Ctx, n int, alpha string, sub int64) {
 		var isNil bool
 		var len0, len1 int
 		var dec []byte
+		derivedBad := ""
 		pn, val, site, stack := fw.Guard(func() {
 			s := seqio.NewAutoScanner(bytes.NewReader(rec))
 			ok = s.Scan()
@@ -423,7 +424,26 @@ func (m c16) positive(c *fw.Ctx, n int, alpha string, sub int64) {
 			len0 = gts.Len(v)
 			dec = v.Bytes()
 			len1 = gts.Len(v)
+			// records derived from the decoded one (what every command that
+			// looks at the residues and then re-annotates does): the same
+			// length, residues and block.
+			for name, w := range map[string]gts.Sequence{
+				"WithFeatures": gts.WithFeatures(v, v.Features()),
+				"WithTopology": gts.WithTopology(v, gts.Circular),
+				"WithInfo":     gts.WithInfo(v, v.Info()),
+			} {
+				if gts.Len(w) != n || !bytes.Equal(w.Bytes(), p) || gts.Len(w) != n {
+					derivedBad = fmt.Sprintf("%s of the decoded record: Len %d, %d residues", name, gts.Len(w), len(w.Bytes()))
+				} else if st, isStr := w.(fmt.Stringer); isStr && n > 0 && !strings.Contains(st.String(), "\n"+string(block)+"//") {
+					derivedBad = name + " of the decoded record prints another ORIGIN block"
+				}
+			}
 		})
+		if !pn && derivedBad != "" {
+			c.Violate(cl16(eol)+":record-derived-after-decoding", enc, fmt.Sprintf("Len %d, the residues and the block of the record", n), derivedBad)
+			return
+		}
+		c.Bucket("scan|derived-after-decoding")
 		cl := "scan-" + eol
 		switch {
 		case pn:
@@ -444,6 +464,8 @@ func (m c16) positive(c *fw.Ctx, n int, alpha string, sub int64) {
 		return
 	}
 }
+
+func cl16(eol string) string { return "scan-" + eol }
 
 // slowAccepts demands that the slow parser accepts text as d residues equal to
 // want (decoded the way the reader does: an undecoded Origin over the token).
@@ -496,6 +518,8 @@ func (k c16Neg) String() string {
 		return fmt.Sprintf("wrong-index line=%d variant=%s", k.line, c16IdxVariants[k.vari])
 	case "missing-sep":
 		return fmt.Sprintf("missing-sep group=%d", k.group)
+	case "empty-line":
+		return fmt.Sprintf("empty-line before line=%d", k.line)
 	}
 	return fmt.Sprintf("non-printable residue=%d byte=%d", k.pos, k.b)
 }
@@ -535,6 +559,11 @@ func (k c16Neg) apply(p []byte) ([]byte, int) {
 		out := append([]byte(nil), block[:at]...)
 		out = append(out, idx...)
 		return append(out, block[at+model.OriginLineWidth:]...), n
+	case "empty-line":
+		at := c16LineStart(k.line)
+		out := append([]byte(nil), block[:at]...)
+		out = append(out, '\n')
+		return append(out, block[at:]...), n
 	case "missing-sep":
 		l, g := k.group/6, k.group%6
 		at := c16LineStart(l) + model.OriginLineWidth + 11*g
@@ -799,6 +828,7 @@ func (m c16) sweepOne(c *fw.Ctx, n int) {
 		{kind: "wrong-index", line: (n / 7) % lines, vari: n % 7},
 		{kind: "missing-sep", group: (n * 31) % groups},
 		{kind: "non-printable", pos: (n * 17) % n, b: c16BadBytes[n%len(c16BadBytes)]},
+		{kind: "empty-line", line: (n / 5) % lines},
 	}
 	if n%60 == 0 {
 		// whole surplus lines: the declared length ends exactly at a line end,
